@@ -275,6 +275,11 @@ impl Scheduler for Sched {
     }
 }
 
+/// a scheduler for a stand-alone Runner (used by the `simcli` binary)
+pub fn new_scheduler(spec: SchedSpec, out: Arc<Mutex<SchedOut>>) -> Box<dyn Scheduler + Send> {
+    Box::new(Sched::new(spec, out))
+}
+
 #[derive(Debug)]
 pub enum Failure {
     Panic(String),
